@@ -227,6 +227,13 @@ type cerr =
 | EReadReduction
 | EOuterPrivate
 | EBlockReduction
+| EUnsupportedOp
+
+type fixes = { fx_ops : bool; fx_nest : bool; fx_rhs : bool }
+
+val no_fixes : fixes
+
+val all_fixes : fixes
 
 val mark : var -> iop option -> (alist * cerr list) -> alist * cerr list
 
@@ -240,6 +247,10 @@ val nested : stmt -> (var * stmt) list
 
 val node_assignments : var -> stmt -> alist
 
+val merge_errs : alist -> alist -> cerr list
+
+val final_merge : var -> stmt -> alist * cerr list
+
 val final_assignments : var -> stmt -> alist
 
 val expr_vars : expr -> var list
@@ -250,7 +261,9 @@ val reads_any : var list -> expr -> bool
 
 val inplace_vars : alist -> var list
 
-val reads_bad : var list -> stmt -> bool
+val reads_bad : bool -> var list -> stmt -> bool
+
+val has_unsupported : alist -> bool
 
 type clause =
 | CRed of iop
@@ -266,7 +279,7 @@ val classify : region -> var -> clause
 
 val opt_errs : bool -> cerr -> cerr list
 
-val region_errors : region -> cerr list
+val region_errors : fixes -> region -> cerr list
 
 val w : z -> bool -> z -> z
 
@@ -318,4 +331,4 @@ val expr_ok : (var -> clause) -> var list -> expr -> bool
 
 val wf : (var -> clause) -> var list -> stmt -> var list option
 
-val region_wf : region -> var list option
+val region_wf : fixes -> region -> var list option
